@@ -186,7 +186,10 @@ def run(ctx):
         return [e_]
     okg = len(guards_) == 1
     if okg:
-        cs = conjuncts(guards_[0]["cond"])
+        # the guard in its normal form (hir.as_branch: `!`, De Morgan and `||` folded into a conjunction of possibly negated tests; named
+        # temporaries read through): the branch that returns Err must be the THEN branch of a conjunction containing `name.is_empty()`
+        br_ = hir.as_branch(dict(guards_[0], cond=hir.through_lets(guards_[0]["cond"], hir.let_env(fah["body"]))))
+        cs = conjuncts(br_[0]) if br_ and br_[1] is not None and any(n_.get("k") == "Ret" for n_ in hir.walk(br_[1])) else []
         okg = any(c["k"] == "MethodCall" and c["method"] == "is_empty" and field_path(c["recv"]) == (fa["locals"][name_arg]["name"],) for c in cs) \
             and not any(c["k"] == "Binary" and c["op"] in ("||", "Or") for c in cs)
     ctx.ob("N-EMPTY", "fold_atom rejects ONLY empty names (the Err guard is a conjunction containing name.is_empty())", okg,
